@@ -111,6 +111,8 @@ class Ctx:
         self.inc_small = IncSolver(small_only=True)
         self.neg_distinct = {}
         self.type_ids = {}
+        self._roots = {}
+        self.src = None
 
     # ---- sorts ------------------------------------------------------------------------------------------
     def fsort(self):
@@ -131,6 +133,18 @@ class Ctx:
         if k == "any":
             return z3.IntSort()
         raise Unsupported(f"no sort for type {t}")
+
+    def root_class(self, name):
+        """top-most class of the repository in the inheritance chain of `name` (GreyWolf -> Agent)"""
+        r = self._roots.get(name)
+        if r is None:
+            r = name
+            if self.src is not None:
+                ci = self.src.resolve_class(name)
+                if ci is not None:
+                    r = self.src.mro(ci)[-1].name
+            self._roots[name] = r
+        return r
 
     def fresh_name(self, base):
         self.n += 1
@@ -173,6 +187,7 @@ class State:
         self.axs = set()
         self.dcache = {}
         self.dec_ids = set()
+        self.tagmap = {}
 
     def clone(self):
         s = State(self.ctx)
@@ -185,6 +200,7 @@ class State:
         s.axs = set(self.axs)
         s.dcache = dict(self.dcache)
         s.dec_ids = set(self.dec_ids)
+        s.tagmap = dict(self.tagmap)
         return s
 
     # ---- environment ------------------------------------------------------------------------------------
@@ -231,6 +247,9 @@ class State:
             return True
         if z3.is_true(d):
             return False
+        ta, tb = self.tagmap.get(a.get_id()), self.tagmap.get(b.get_id())
+        if ta is not None and tb is not None and ta != tb:
+            return True           # different dynamic types (sequence element type / class family): different objects
         key = (a.get_id(), b.get_id())
         hit = self.dcache.get(key)
         if hit is not None:
@@ -255,10 +274,23 @@ class State:
     def type_tag(self, v):
         """python's dynamic typing: sequences of different element types are different objects.  ltype(ref) is a
         global tag function; every typed sequence value met on the path gets its tag."""
-        if v.t[0] in ("list", "nd") and v.z is not None:
-            tid = self.ctx.type_ids.setdefault(show(v.t), len(self.ctx.type_ids) + 1)
-            f = z3.Function("ltype", z3.IntSort(), z3.IntSort())(v.z) == tid
-            self.assume(z3.Implies(z3.Not(v.none), f) if v.none is not None else f)
+        if v.z is None:
+            return
+        label = None
+        if v.t[0] in ("list", "nd"):
+            label = show(v.t)
+        elif v.t[0] == "obj":
+            label = "obj:" + self.ctx.root_class(v.t[1])      # objects of unrelated class families are different objects
+        if label is None:
+            return
+        tid = self.ctx.type_ids.setdefault(label, len(self.ctx.type_ids) + 1)
+        k = _key(v.z)
+        if self.tagmap.get(k) == tid:
+            return
+        if v.none is None:
+            self.tagmap[k] = tid
+        f = z3.Function("ltype", z3.IntSort(), z3.IntSort())(v.z) == tid
+        self.assume(z3.Implies(z3.Not(v.none), f) if v.none is not None else f)
 
     def _wf_ref(self, v):
         self.type_tag(v)
